@@ -10,7 +10,16 @@ fn main() {
     // the downstream software of the standard output stream closes the pipe and triggers a panic.
     uucore::panic::mute_sigpipe_panic();
 
-    let args = std::env::args().collect::<Vec<String>>();
+    let mut args: Vec<String> = Vec::new();
+    for arg in std::env::args_os() {
+        match arg.into_string() {
+            Ok(arg) => args.push(arg),
+            Err(arg) => {
+                eprintln!("find: invalid argument {arg:?}: not valid UTF-8");
+                std::process::exit(1);
+            }
+        }
+    }
     let strs: Vec<&str> = args.iter().map(std::convert::AsRef::as_ref).collect();
     let deps = findutils::find::StandardDependencies::new();
     std::process::exit(findutils::find::find_main(&strs, &deps));
